@@ -264,10 +264,21 @@ func (s *state) walk(node ast.Node) {
 }
 
 func (s *state) visitSoyFile(node *ast.SoyFileNode) {
-	s.jsln("// This file was automatically generated from ", node.Name, ".")
+	s.jsln("// This file was automatically generated from ", commentText(node.Name), ".")
 	s.jsln("// Please don't edit this file by hand.")
 	s.jsln("")
 	s.visitChildren(node)
+}
+
+// commentText returns str with every character that would end a one-line
+// comment (or is otherwise a control character) replaced by a space.
+func commentText(str string) string {
+	return strings.Map(func(r rune) rune {
+		if r < ' ' || r == '\u2028' || r == '\u2029' {
+			return ' '
+		}
+		return r
+	}, str)
 }
 
 func (s *state) visitChildren(parent ast.ParentNode) {
